@@ -245,6 +245,8 @@ def ev_mp(e, env, mp):
             return max(a[0], a[1])
         if f == 'mini':
             return min(a[0], a[1])
+        if f == 'arctan':
+            return mp.atan(a[0])
         return getattr(mp, f)(*a)
     raise ValueError(k)
 
@@ -399,3 +401,17 @@ def bounded(rnd, names, depth=2, funcs=('sin', 'tanh', 'sigmoid', 'cos')):
         return mul(bounded(rnd, names, depth - 1, funcs),
                    safe_call(rnd, rnd.choice(funcs), bounded(rnd, names, depth - 1, funcs)))
     return div(bounded(rnd, names, depth - 1, funcs), add(num(2.0), ('pow', bounded(rnd, names, depth - 1, funcs), 2)))
+
+
+def has_literal_call(e):
+    """a function call none of whose arguments contains a variable"""
+    k = e[0]
+    if k in ('num', 'var', 'const'):
+        return False
+    if k == 'call':
+        if e[1] != 'past' and not any(variables(a) for a in e[2:]):
+            return True
+        return any(has_literal_call(a) for a in e[2:])
+    if k == 'pow':
+        return has_literal_call(e[1])
+    return any(has_literal_call(a) for a in e[1:])
